@@ -301,6 +301,23 @@ def appReturn (fixed : Bool) (fuel : Nat) (s : RS) (q : Nat) (res : Option (List
     (s, op ++ out ++ o2 ++ o3)
 end
 
+def fuelOf0 (s : RS) : Nat := 4 * s.answers.length + 8
+
+/-- shutting down a local capability cancels the calls still running on it (`server.Server.Shutdown` cancels and
+    waits for them); each returns its context's error, which may release further capabilities -/
+def cancelHeld (fixed : Bool) : Nat → RS → List Out → List Nat → RS × List Out
+  | 0, s, acc, _ => (s, acc)
+  | _ + 1, s, acc, [] => (s, acc)
+  | n + 1, s, acc, k :: ks =>
+    let qs := (s.answers.filter (fun a => a.2.held ∧ a.2.heldOn = k)).map (·.1)
+    let r := qs.foldl (fun (st : RS × List Out) q =>
+      let r2 := appReturn fixed (fuelOf0 st.1) st.1 q none
+      (r2.1, st.2 ++ [Out.cancelled q] ++ r2.2)) (s, [])
+    let more := r.2.filterMap (fun o => match o with | .sd k' => some k' | _ => none)
+    cancelHeld fixed n r.1 (acc ++ r.2) (ks ++ more)
+
+def sdsOf (os : List Out) : List Nat := os.filterMap (fun o => match o with | .sd k' => some k' | _ => none)
+
 inductive Ev
   | bootstrap (q : Nat)
   | call (q : Nat) (tgt : Tgt) (m : Nat) (caps : List Desc)
@@ -311,7 +328,7 @@ inductive Ev
   | close
 deriving Repr, DecidableEq
 
-def fuelOf (s : RS) : Nat := 4 * s.answers.length + 8
+def fuelOf (s : RS) : Nat := fuelOf0 s
 
 def abortWith (fixed : Bool) (s : RS) : RS × List Out := shutdown fixed s true
 
@@ -402,7 +419,11 @@ def step (fixed : Bool) (s : RS) (e : Ev) : RS × List Out :=
         else (s, [])
       else
         let (s, o, ok) := destroy s q a
-        if ok then (s, o) else let (s, o') := abortWith fixed s; (s, o ++ o')
+        if ok then (s, o) else
+        -- the answer's clients are released (which may shut capabilities down and cancel the calls on them) before
+        -- handleFinish reports the violation
+        let r := cancelHeld fixed (2 * s.nCaps + 4) s o (sdsOf o)
+        let (s, o') := abortWith fixed r.1; (s, r.2 ++ o')
   | .release id n =>
     match releaseExport s id n with
     | some r => r
@@ -427,19 +448,6 @@ def step (fixed : Bool) (s : RS) (e : Ev) : RS × List Out :=
         let k' := s.nCaps
         appReturn fixed fuel { s with nCaps := k' + 1, refs := put s.refs k' 2 } q (some [.loc k', .loc k'])
   | .close => shutdown fixed s true
-
-/-- shutting down a local capability cancels the calls still running on it (`server.Server.Shutdown` cancels and
-    waits for them); each returns its context's error, which may release further capabilities -/
-def cancelHeld (fixed : Bool) : Nat → RS → List Out → List Nat → RS × List Out
-  | 0, s, acc, _ => (s, acc)
-  | _ + 1, s, acc, [] => (s, acc)
-  | n + 1, s, acc, k :: ks =>
-    let qs := (s.answers.filter (fun a => a.2.held ∧ a.2.heldOn = k)).map (·.1)
-    let r := qs.foldl (fun (st : RS × List Out) q =>
-      let r2 := appReturn fixed (fuelOf st.1) st.1 q none
-      (r2.1, st.2 ++ [Out.cancelled q] ++ r2.2)) (s, [])
-    let more := r.2.filterMap (fun o => match o with | .sd k' => some k' | _ => none)
-    cancelHeld fixed n r.1 (acc ++ r.2) (ks ++ more)
 
 /-- one event, run to quiescence -/
 def stepTop (fixed : Bool) (s : RS) (e : Ev) : RS × List Out :=
